@@ -863,7 +863,58 @@ func counterReadFailure(w *rig.Writer, in interface{}, err error) {
 		w.Fail(rig.GoFailure{Kind: "counterexample", What: "/metrics shows a counter or histogram statistic with a value that is not its value (not an unsigned decimal number)", Input: in, Detail: b.Error()})
 		return
 	}
-	counterReadFailure(w, in, err)
+	w.Fail(rig.GoFailure{Kind: "broken-correspondence", What: "a counter registered by the harness cannot be read back from /metrics", Input: in, Detail: err.Error()})
+}
+
+// runCounterFamily: several counters registered under ONE name and told apart by a tag (as the
+// batching pool's batch_connect{attempt=...} family is): each series must report exactly the
+// increments applied to it.
+func runCounterFamily(w *rig.Writer) {
+	name := fmt.Sprintf("verifc18fam%d", atomic.AddInt32(&c18CounterN, 1))
+	vals := []string{"0", "1", "2", "high"}
+	ids := make([]uint32, len(vals))
+	want := make([]uint64, len(vals))
+	for i, v := range vals {
+		ids[i] = metrics.AddCounter(name, metrics.Tags{"attempt": v})
+		want[i] = uint64(7*i + 3)
+	}
+	plain := metrics.AddCounter(name+"plain", nil)
+	var wg sync.WaitGroup
+	for i := range ids {
+		wg.Add(1)
+		go func(i int) {
+			defer wg.Done()
+			for k := uint64(0); k < want[i]; k++ {
+				metrics.IncCounter(ids[i])
+			}
+		}(i)
+	}
+	metrics.IncCounterBy(plain, 5)
+	wg.Wait()
+	in := map[string]interface{}{"kind": "counter-family", "name": name, "tag": "attempt", "values": vals, "increments": want}
+	all, err := fetchMetrics()
+	if err != nil {
+		counterReadFailure(w, in, err)
+		return
+	}
+	for i, v := range vals {
+		found := false
+		for _, ln := range all[name] {
+			if ln.tags["attempt"] != v {
+				continue
+			}
+			found = true
+			if got, perr := strconv.ParseUint(ln.val, 10, 64); perr != nil || got != want[i] {
+				w.Fail(rig.GoFailure{Kind: "counterexample", What: "a counter's reported value is not the number of increments applied to it (counters sharing a name, told apart by a tag)", Input: in,
+					Detail: fmt.Sprintf("series %s{attempt=%s}: %d increments applied, /metrics shows %q", name, v, want[i], ln.val)})
+			}
+		}
+		if !found {
+			w.Fail(rig.GoFailure{Kind: "counterexample", What: "a counter that was incremented is not reported by /metrics (counters sharing a name, told apart by a tag)", Input: in,
+				Detail: fmt.Sprintf("series %s{attempt=%s}: %d increments applied, no line in /metrics (%d lines under that name)", name, v, want[i], len(all[name]))})
+		}
+	}
+	w.Count("counter-family")
 }
 
 func runCounter(w *rig.Writer, d c18CounterDesc, pre []uint64) (rig.Case, bool) {
@@ -1375,6 +1426,7 @@ func c18child(e *env) {
 	for _, d := range ks {
 		add(runCounter(w, d, nil))
 	}
+	runCounterFamily(w)
 	// gauges: publishers set integer and float gauges while /metrics is being scraped (what the
 	// batching pool's monitor and a monitoring agent do); the values read back are the last set
 	ig := metrics.AddIntGauge(fmt.Sprintf("verifc18g%d", atomic.AddInt32(&c18CounterN, 1)), nil)
